@@ -19,6 +19,7 @@ func ruleC16(prog *Program, rep *Report) {
 	ruleAppendRetain(prog, rep, "alt")
 	ruleEmbedParity(prog, rep) // Marshal reads promoted fields through the plan's offsets
 	rulePreRegister(prog, rep) // a type registered lazily makes the result depend on what was recomposed before
+	ruleParseFloatBits(prog, rep, "alt", "oj", "sen", "gen")
 }
 
 // derivedFromName: does e contain (or is it a local assigned from an expression
